@@ -45,8 +45,15 @@ pub fn run(a: &Args) -> i32 {
     campaign::report_failures(&mut run, &out, &c.exec);
     run.cov("observed", campaign::stats_json(&out.stats));
     run.cov("option_sets", json!(out.cfg_sigs.len()));
+    // concurrent part (E3): begin racing with commits, flushes and compaction rounds issued by a
+    // maintenance task, seeded delays at the txn.begin.* / compact.* / flush.* yield points
+    let o = crate::props::conc::run_conc(&mut run, a, "C01", a.tier.pick(60, 800), 4);
+    run.cov("concurrent_histories", json!(o.histories));
+    run.cov("concurrent_totals", json!(o.totals));
+    run.cov("concurrent_distinct_interleaving_signatures", json!(o.sigs.len()));
+    run.cov("concurrent_yield_point_hits", json!(o.point_hits));
     run.assumptions = vec![
-        "single driver thread (E1); the begin/commit/compaction thread-interleaving axis is covered by the concurrent part of this check".into(),
+        "E1 part: single driver thread; the begin/commit/compaction thread-interleaving axis is covered by the concurrent part (E3: sampled schedules with seeded delays, not all interleavings)".into(),
         "reader horizon read through Transaction::verif_start_seq".into(),
     ];
     let floor = a.tier.pick(100, 1000);
